@@ -18,7 +18,18 @@ package state
 //@   ensures supply == old(supply) - old(big(amount))
 //@   assigns supply
 
+// Commit removes an account from the trie only if it self-destructed or is a dirty, empty account
+// and empty-account deletion was requested: accounts that were merely read are never deleted, so
+// the committed root does not depend on which accounts were looked at.
+//@ macro newlydeleted(s, a) = has(s.stateObjects, a) && s.stateObjects[a] != nil && s.stateObjects[a].deleted && !old(s.stateObjects[a].deleted)
 //@ func StateDB.Commit
+//@   requires s != nil && s.stateObjects != nil
+//@   requires forall a common.Address, b common.Address :: a != b && has(s.stateObjects, a) && has(s.stateObjects, b) && s.stateObjects[a] != nil ==> s.stateObjects[a] != s.stateObjects[b]
+//@   ensures[C09] @deleteonly forall a common.Address :: newlydeleted(s, a) ==> old(s.stateObjects[a].suicided) || (old(has(s.stateObjectsDirty, a)) && deleteEmptyObjects)
+//@   loop 1 invariant[C09] forall a common.Address :: newlydeleted(s, a) ==> old(s.stateObjects[a].suicided) || (old(has(s.stateObjectsDirty, a)) && deleteEmptyObjects)
+//@   loop 1 invariant[C09] s.stateObjects == old(s.stateObjects) && (forall a common.Address :: has(s.stateObjects, a) == old(has(s.stateObjects, a)) && s.stateObjects[a] == old(s.stateObjects[a]))
+//@   loop 1 invariant[C09] forall a common.Address :: !$seen(a) ==> has(s.stateObjectsDirty, a) == old(has(s.stateObjectsDirty, a))
+//@   loop 1 invariant[C09] forall a common.Address :: has(s.stateObjects, a) && s.stateObjects[a] != nil ==> s.stateObjects[a].suicided == old(s.stateObjects[a].suicided)
 //@   keeps big
 
 // ---- journalling (C09) ------------------------------------------------------------------------
